@@ -585,6 +585,39 @@ def long_session_script(rng, name, seconds, drop_at=(), replay_age=(2, 3), expec
     return Script(name, ops, {"suite": "node", "noshrink": True})
 
 
+def star_session_script(rng, name, seconds, replay_age=(2, 3)):
+    """three nodes, every node has TWO sessions: the per-second housekeeping must tick every session in every round, also in the rounds in which one of
+    them emits a rotation message — a payload datagram replayed after its receiver has ticked twice is dead on every session (C03 at node level)"""
+    ports = [1, 2, 3]
+    ops = mesh(rng, 3) + connect_chain(3)
+    t = 0
+    for _ in range(3):
+        t += 1
+        ops += second(ports, t)
+    ops.append("nexpect mesh 1 2 3")
+    marks = []
+    pairs = [(1, 2), (3, 2), (2, 1), (2, 3), (1, 3), (3, 1)]
+    while t < seconds:
+        t += 1
+        ops.append("ntime %d" % t)
+        ops += ["nhk 1", "nhk 2", "nhk 3"] + drain(10)
+        keep = []
+        for (nm, victim, born) in marks:
+            if t - born in replay_age:
+                ops.append("nreplay m:%s %d orig" % (nm, victim))
+            if t - born < max(replay_age):
+                keep.append((nm, victim, born))
+        marks = keep
+        if t % 7 == 0 or t % 120 in (118, 119, 0, 1, 2, 3, 4):
+            for a, b in pairs:
+                ops.append("nframe %d %s" % (a, hx(ipv4_packet(ip4(a), ip4(b), b"t%d" % t))))
+                nm = "f%d_%d_%d" % (t, a, b)
+                ops += ["nmark " + nm, "ndeliver 0"]
+                marks.append((nm, b, t))
+    ops.append("nexpect mesh 1 2 3")
+    return Script(name, ops, {"suite": "node", "noshrink": True})
+
+
 def stale_attempt_script(rng, name, which, at, mode="router", dev="tun"):
     """one genuine handshake datagram (w0 = ping, w1 = pong, w2 = peng of the first handshake) is replayed verbatim from its original source at second
     `at`, and nothing else: the attempt it may open lives until it is given up (120 retries) - the established connection, its routes and the payload in
